@@ -194,3 +194,33 @@ def zero_swap_file(cfg, seed):
         else:
             raise core.HarnessError("no pair of data digests with a leading zero byte found")
     return _zc[key]
+
+
+# ---- scale-dependent shapes: chunks larger than the library's 32 KiB copy / scan buffers --------------------------------
+BUF = 32768
+
+
+def big_file(cfg, seed, sizes=(40000, 32768, 70000, 100, 32769)):
+    """(file, pieces): reference-written file whose chunks are larger than one and than two internal buffers, exactly one
+    buffer, and one byte more; incompressible content, so the stored sizes are of the same order under zstd"""
+    key = ("big", cfg.name(), seed, sizes)
+    if key not in _zc:
+        pcs = [core.prng_bytes(n, seed * 100 + 17 + i) for i, n in enumerate(sizes)]
+        f, h, body = zckref.build_file(pcs, comp=cfg.comp, htype=cfg.fhash, ctype=cfg.chash, flags=cfg.flags(), dict_=cfg.dict,
+                                       level=(cfg.level if cfg.level >= 0 else 3))
+        _zc[key] = (f, pcs)
+    return _zc[key]
+
+
+def seam_offsets(p):
+    """file offsets worth cutting or damaging in a file with big chunks: every chunk start and end, and every 32 KiB seam
+    inside a chunk, each -1 / 0 / +1"""
+    out = set()
+    for off, ln in zckref.extents(p):
+        if ln == 0:
+            continue
+        marks = [off, off + ln] + [off + k for k in range(BUF, ln, BUF)]
+        for m in marks:
+            for d in (-1, 0, 1):
+                out.add(m + d)
+    return sorted(out)
